@@ -291,9 +291,12 @@ func (p *sessionPort) flush(result []string, extraWaitForTicker bool) []string {
 // flushParts returns the event lines and, separately, a late reader result.
 func (p *sessionPort) flushParts(extraWaitForTicker bool) ([]string, []string) {
 	lw := quiesce()
-	if lw && extraWaitForTicker {
-		time.Sleep(30 * time.Millisecond)
-		quiesce()
+	if extraWaitForTicker {
+		// a request inside lockWrite polls every 20 ms: give it its tick (and, on a loaded machine, a second and a third one)
+		for round := 0; lw && round < 3; round++ {
+			time.Sleep(30 * time.Millisecond)
+			lw = quiesce()
+		}
 	}
 	var out []string
 	if spinning {
